@@ -62,6 +62,9 @@ claimed = {
  "C08": dict(
    text="Lean 4 proof: with -prexec, for every machine the setup program leaves, every suite and everything its cases may do (any memory history through both views incl. bank switches and LUT edits but no TakeSnapshot, any registers, cycle counts, installed trap functions), every case in every position is handed reset registers, cycle count 0, no trap handler, zero counters on every byte of every bank and exactly the setup's memory image (C08_start, C08_independent, by induction over the suite on top of C07_restore and C06_clear_total); without -prexec the provider is a constant function of the configuration (C08_fresh). The statement lists of snapshotCpuProvider.NewCpu, newSnapshotProvider and CPU6502.Reset are regenerated from the source on every run. Tie: suites through the real caseexec.CaseExec, start machine and verdict compared between in-suite and solo runs. Modelled, not verified: that the Go fresh provider shares no memory between calls (only executed), gopher-lua.",
    technique="Lean 4 proof by induction over suites, over regenerated provider/Reset statement lists + in-suite vs solo differential through the real case executor"),
+ "C10": dict(
+   text="Lean 4 proof, for arbitrary program trees (hence any instruction sequence of the CPU model, tied to the data sheets by C01) on arbitrary inner buses (hence every memory model): the page test plus exact lookup intercepts exactly the trap address (C10_address); the trap log after a run is the old log followed by the values of the stores issued to the trap address in program order, one call per store (C10_log, induction over trees); an intercepted store performs no memory write of its own (C10_trap, C10_untouched) and the continuation runs with the script's registers on the script's memory (C10_script_effect); other addresses and all loads are the inner bus (C10_other, C10_load, C10_plain_run, C10_placeholder_idle); ports: stdout after a run is the old text plus each issued port store formatted by its own port with its own counter (C10_port_run, C10_port_store, C10_port_other, C10_format). Tie: generated programs with Lua trap functions mirrored in Lean through both trap implementations, and configured ports with captured stdout. Modelled, not verified: gopher-lua, os.Stdout; RMW 'modified value' rests on C01's store equality.",
+   technique="Lean 4 proof by induction over interaction trees on a wrapper-bus model + program-level differential with mirrored Lua trap scripts and captured stdout"),
  "C09": dict(
    text="Lean 4 proof over abstract script behaviours (any iteration count, any per-iteration behaviour of arrange / driver / assert): reported OK implies assembling, loading and script load succeeded, the driver ran to its BRK at least once (once per iteration) and every assert call made returned boolean true (C09_sound); any fault or non-true assert in a reached iteration, or an iteration count below one, implies not OK (C09_fail); verifyall succeeds iff every case passed and then prints the number of cases (C09_all, C09_count). Tie: generated Lua scripts and drivers through the real Execute / CaseExec / IterateTestCases with a fake assembler. Modelled, not verified: gopher-lua's VM and value conversions.",
    technique="Lean 4 proof over a verdict model + differential with generated Lua scripts through the real test executor"),
